@@ -4,6 +4,7 @@ import (
 	"encoding/hex"
 	"fmt"
 	"io"
+	"os"
 	"strconv"
 	"strings"
 	"time"
@@ -146,13 +147,33 @@ func buildSubs(xs []mItem, spare int) (*astisub.Subtitles, map[*astisub.Item]int
 }
 
 // guard runs f and converts a panic into a string outcome
-func guard(f func() string) (out string) {
-	defer func() {
-		if r := recover(); r != nil {
-			out = "PANIC"
-		}
+// caseTimeout bounds one case (VERIF_CASE_TIMEOUT seconds, default 900): a call of the library that does not
+// return is an answer ("TIMEOUT", which no model gives), not a stalled check
+var caseTimeout = func() time.Duration {
+	if v, err := strconv.Atoi(os.Getenv("VERIF_CASE_TIMEOUT")); err == nil && v > 0 {
+		return time.Duration(v) * time.Second
+	}
+	return 900 * time.Second
+}()
+
+func guard(f func() string) string {
+	done := make(chan string, 1)
+	go func() {
+		defer func() {
+			if r := recover(); r != nil {
+				done <- "PANIC"
+			}
+		}()
+		done <- f()
 	}()
-	return f()
+	t := time.NewTimer(caseTimeout)
+	defer t.Stop()
+	select {
+	case out := <-done:
+		return out
+	case <-t.C:
+		return "TIMEOUT"
+	}
 }
 
 func decStr(tok string) string {
